@@ -730,6 +730,11 @@ func C01(p *core.Program, r *core.Report) {
 						re2 := regexp.MustCompile(`^len\(` + regexp.QuoteMeta(xs) + `\) < len\(` + regexp.QuoteMeta(arg) + `\)$`)
 						cut2, m2 := core.CutAtoms(p, fn, re2, false)
 						ok := (len(m1) > 0 && !core.InstrReachable(fn, cut1, sl)) || (len(m2) > 0 && !core.InstrReachable(fn, cut2, sl))
+						if !ok {
+							// another spelling of the guard: the comparisons that dominate the slice
+							// imply its bounds by linear arithmetic (core/linear.go, as in T13)
+							ok = sliceBoundsProven(p, fn, sl, b)
+						}
 						r.Add("T2", key, p.Pos(sl.Pos()), ok, "needs strings.HasPrefix(X, Y) or a length comparison on every path (a case-insensitive prefix test does not bound the byte length)")
 					}
 				}
